@@ -409,7 +409,10 @@ def _stringifies(t: T, x: T) -> bool:
 
 
 def _null_guard(pc, x: T) -> bool:
-    """Is some literal of the path condition a (positive) non-null test of x?"""
+    """Is some literal of the path condition a (positive) non-null test of x?  Decided semantically first: with x null the
+    path is infeasible (covers `not (isnull(c) or isnull(x))`, guard clauses, De Morgan forms)."""
+    if any(_eval_nulls(c, {x: False}) is False for c in pc):
+        return True
     for c in pc_literals(pc):
         pos = True
         while c.op == "not":
